@@ -43,24 +43,30 @@ func (f *fileStorage) Set(key string, value []byte) error {
 	path := f.filePathToFile(key)
 	tmp := path + ".tmp"
 
+	verifCrashPoint()
 	file, err := os.OpenFile(tmp, os.O_WRONLY|os.O_CREATE|os.O_TRUNC, 0666)
 	if err != nil {
 		return err
 	}
 
+	verifCrashPoint()
 	if _, err = file.Write(value); err == nil {
+		verifCrashPoint()
 		err = file.Sync()
+		verifCrashPoint()
 	}
 
 	if cerr := file.Close(); err == nil {
 		err = cerr
 	}
+	verifCrashPoint()
 
 	if err != nil {
 		os.Remove(tmp)
 		return err
 	}
 
+	defer verifCrashPoint()
 	return os.Rename(tmp, path)
 }
 
